@@ -11,6 +11,7 @@ a = ap.parse_args()
 allm = sorted(d for d in os.listdir(V + "/seeded") if os.path.isfile(V + "/seeded/" + d + "/patch.diff"))
 sel = [m for m in allm if not a.ids or any(m.startswith(i) for i in a.ids)]
 DPROP = {"D1": "C07", "D2": "C08", "D3": "C11", "D4": "C12", "D5": "C13", "D6": "C17"}
+ALL = ["C%02d" % i for i in range(1, 19)]
 def prop_of(m):
     return DPROP.get(m.split("-")[0], m.split("-")[0])
 def one(job):
@@ -33,7 +34,7 @@ def one(job):
         shutil.rmtree(wt, ignore_errors=True)
 jobs = []
 for m in sel:
-    for chk in (a.c.split(",") if a.c else [prop_of(m)]):
+    for chk in (a.c.split(",") if a.c else (ALL if m.startswith("benign") else [prop_of(m)])):
         for seed in a.s.split(","):
             jobs.append((m, chk, int(seed)))
 mpath = V + "/seeded/matrix.json"
